@@ -53,7 +53,8 @@ class Tok(object):
     """One preprocessing token.  s: spelling, kind, ws: preceded by white space (incl. comments), bol: first token
     on its (logical) line, line: physical line of its first character, hs: hide set, oline: line that __LINE__ is to
     report for this token (line of the outermost macro invocation it came from), org: "#" for a string literal that
-    the # operator produced (evidence only: nested quoting), else None."""
+    the # operator produced, "##" for a token that the ## operator produced (evidence only: nested quoting, macro names
+    created by pasting), else None."""
     __slots__ = ("s", "kind", "ws", "bol", "line", "hs", "oline", "org")
 
     def __init__(self, s, kind, ws=False, bol=False, line=0, hs=frozenset(), oline=None, org=None):
@@ -515,8 +516,13 @@ class Preprocessor(object):
             return
         if t.s in t.hs:
             self.features.add("hideset-blocked")
+            if t.org == "##":
+                # 6.10.3.4p2 holds for a name however it came to be in the replacement list: this one was CREATED by ##
+                self.features.add("hideset-blocked-name-created-by-##")
             out.append(t)
             return
+        if t.org == "##":
+            self.features.add("macro-name-created-by-##-replaced")
         for h in t.hs:
             k = similar_names(h, t.s)
             if k:
@@ -548,6 +554,7 @@ class Preprocessor(object):
             return
         src.next()
         args, rpar = self._collect(src, m)
+        self._note_unexpanded_arguments(m, args)
         if t.hs:
             self.features.add("invocation-formed-during-rescan")
             if t.hs != rpar.hs:
@@ -558,6 +565,49 @@ class Preprocessor(object):
             self.features.add("empty-expansion")
         self.features.add("funclike")
         src.push(res)
+
+    def _note_unexpanded_arguments(self, m, args):
+        """Evidence only (6.10.3.1p1: an argument is macro-expanded for a parameter that is NOT an operand of # or ##,
+        so an argument whose parameter occurs only as such an operand, or not at all, is never expanded): for every
+        such argument record whether expanding it on its own would have been observable - it is not a complete valid
+        invocation (`T(1)` for a two-parameter T, an object-like macro ending in `T (`), or it advances __COUNTER__.
+        The trial expansion leaves no trace in the state of the model."""
+        if not args:
+            return
+        body = m.body
+        if any(t.s == "__VA_OPT__" for t in body):
+            return          # presence of the variable argument is itself decided by an expansion
+        for name, a in args.items():
+            if not a:
+                continue
+            how = set()
+            for i, t in enumerate(body):
+                if t.kind != ID or t.s != name:
+                    continue
+                prev = body[i - 1] if i > 0 else None
+                nxt = body[i + 1] if i + 1 < len(body) else None
+                if prev is not None and prev.kind == PUNCT and prev.s == "#":
+                    how.add("#")
+                elif ((prev is not None and prev.kind == PUNCT and prev.s == "##") or
+                      (nxt is not None and nxt.kind == PUNCT and nxt.s == "##")):
+                    how.add("##")
+                else:
+                    how.add("expanded")
+            if "expanded" in how:
+                continue
+            saved = (self.counter, set(self.features), self.steps, dict(self._argcache))
+            try:
+                self.expand_list([x.copy() for x in a])
+                verdict = "advances-__COUNTER__" if self.counter != saved[0] else None
+            except Undefined:
+                verdict = "not-a-valid-invocation-alone"
+            except Unmodelled:
+                verdict = None
+            self.counter, self.features, self.steps, self._argcache = saved
+            if verdict:
+                self.features.add("unexpanded-argument:" + verdict)
+                for h in sorted(how) or ["unused"]:
+                    self.features.add("unexpanded-argument-of:" + {"#": "#-operand", "##": "##-operand"}.get(h, h))
 
     def _builtin(self, which, t):
         self.features.add("builtin:" + which)
@@ -867,6 +917,7 @@ class Preprocessor(object):
             r.ws = a.ws
             r.line = a.line
             r.hs = a.hs & b.hs
+            r.org = "##"
             self.features.add("paste-tokens")
             mid = [r]
         return lhs[:-1] + mid + rhs[1:]
